@@ -15,9 +15,8 @@ TRUSTED = [
     "Model/Attr.v is hand-written; its tie is the exhaustive run over every entry of _dispatch_queue_attrs (and NULL): "
     "to_info fields, every constructor on an argument grid, and the values reported by a queue created from the entry",
     "root queue addresses are abstracted as 4096+index (injective, non-null)",
-    "NOT covered yet: dispatch_get_specific / dispatch_assert_queue over hierarchies (thread frames) — see DESIGN.md, listed as the partial part of C18",
 ]
-# C18-FRAMES extension (supersedes the "NOT covered yet" line above, which the lead may delete when merging):
+# C18-FRAMES extension:
 TRUSTED += [
     "Model/Frames.v is hand-written (frame stack, iterator, find_queue, get_specific, set_specific, assert_queue[_not]); tie: every probe of the "
     "correspondence feeds the library's REAL frame stack and dq_state words to the model inside Coq and compares find_queue, get_specific, "
